@@ -158,65 +158,132 @@ def strip(r):
     return r, None
 
 
-def ref(a, b, dev=frozenset()) -> bool:
-    """True iff every value of type ``a`` is acceptable where ``b`` is required (covariant generics).
-
-    ``dev`` switches on *models of known deviations*; the oracle always uses dev = {} -- the variants only name buckets.
-    """
-    ka, kb = a["k"], b["k"]
-    if ka == "noannotation" or kb == "noannotation":  # a missing annotation is compatible with everything
+def ref(a, b) -> bool:
+    """True iff every value of type ``a`` is acceptable where ``b`` is required (covariant generics)."""
+    if a["k"] == "noannotation" or b["k"] == "noannotation":  # a missing annotation is compatible with everything
         return True
-    if ka == "union":  # a union source needs all members accepted
-        return all(ref(m, b, dev) for m in a["a"])
-    if "swap" in dev and kb in ANN and ka not in ANN:
-        # deviation model: only the required side is Annotated -> its primary type is used as the *incoming* type
-        return ref(strip(b)[0], a, dev)
     ca, ea = strip(a)
     cb, eb = strip(b)
     ka, kb = ca["k"], cb["k"]
     if kb == "any":  # Any as a requirement accepts everything
         return True
-    if ka == "union":
-        return all(ref(m, b, dev) for m in ca["a"])
+    if ka == "union":  # a union source needs all members accepted
+        return all(ref(m, b) for m in ca["a"])
     if kb == "union":  # a union target needs one member
-        return any(ref(a, m, dev) for m in cb["a"])
+        return any(ref(a, m) for m in cb["a"])
     if kb == "typevar":
         if cb.get("constraints"):
-            return any(ref(a, c, dev) for c in cb["constraints"])
+            return any(ref(a, c) for c in cb["constraints"])
         if cb.get("bound") is not None:
-            return ref(a, cb["bound"], dev)
+            return ref(a, cb["bound"])
         return True
     if ka == "any":  # an unknown value is acceptable only where everything is
+        return False
+    if ka == "objarray" or kb == "objarray":  # Array[S] <= Array[T] iff S <= T; Array[T] <-> plain object ndarray
+        if ka != kb:
+            return False
+        return ref(ea, eb) if (ea is not None and eb is not None) else True
+    if ka in GENERIC or kb in GENERIC:  # same origin, equal arity, covariant element-wise
+        if ka != kb or len(ca["a"]) != len(cb["a"]):
+            return False
+        return all(ref(x, y) for x, y in zip(ca["a"], cb["a"]))
+    return issubclass(PY[ka], PY[kb])
+
+
+# ---- models of the confirmed deviations: used ONLY to name the bucket of a mismatch --------------
+DEV_NAMES = {
+    "zip": "tuple-arity-zip-truncation",
+    "swap": "required-only-Annotated-args-swapped",
+    "annunion": "Annotated-union-source-not-split",
+    "tvnone": "constrained-TypeVar-miss-falls-through",
+    "annprim": "both-Annotated-primaries-compared-out-of-context",
+}
+
+
+def devmodel(a, b, dev) -> bool:
+    """ref() with the deviations named in ``dev`` switched on; devmodel(a, b, {}) == ref(a, b) (asserted in the bodies)."""
+    ka, kb = a["k"], b["k"]
+    if ka == "noannotation" or kb == "noannotation":
+        return True
+    if ka == "typevar":  # never generated as a source; reachable only through 'swap' (pipefunc: "return True for now")
+        return True
+    if ka == "union":
+        return all(devmodel(m, b, dev) for m in a["a"])
+    a_ann, b_ann = ka in ANN, kb in ANN
+    ca, ea = strip(a)
+    cb, eb = strip(b)
+    if "swap" in dev and b_ann and not a_ann:
+        # only the required side is Annotated -> its primary type is used as the *incoming* type
+        return devmodel(cb, a, dev)
+    if "annunion" in dev and a_ann and ca["k"] == "union":
+        # Annotated[X | Y, m] as a source is not split before a union / TypeVar target is taken apart
+        if kb == "union":
+            return any(devmodel(a, m, dev) for m in b["a"])
+        if kb == "typevar":
+            if b.get("constraints"):
+                return any(devmodel(a, c, dev) for c in b["constraints"]) or all(devmodel(m, b, dev) for m in ca["a"])
+            if b.get("bound") is not None:
+                return devmodel(a, b["bound"], dev)
+            return True
+    if "annprim" in dev and a_ann and b_ann:
+        # both Annotated: the primary types are compared on their own (the source's Array element type is dropped when
+        # the required primary is a Union/TypeVar that only contains an Array; a union primary is not split first)
+        if not devmodel(ca, cb, dev):
+            return False
+        return devmodel(ea, eb, dev) if (ea is not None and eb is not None) else True
+    ka, kb = ca["k"], cb["k"]
+    if ka == "typevar":
+        return True
+    if kb == "any":
+        return True
+    if ka == "union":
+        return all(devmodel(m, b, dev) for m in ca["a"])
+    if kb == "union":
+        return any(devmodel(a, m, dev) for m in cb["a"])
+    if kb == "typevar":
+        if cb.get("constraints"):
+            r = any(devmodel(a, c, dev) for c in cb["constraints"])
+            if not r and "tvnone" in dev and a_ann:
+                # no constraint matched -> None instead of False -> Annotated stripped (element type lost) and retried
+                r = devmodel(ca, cb, dev)
+            return r
+        if cb.get("bound") is not None:
+            return devmodel(a, cb["bound"], dev)
+        return True
+    if ka == "any":
         return False
     if ka == "objarray" or kb == "objarray":
         if ka != kb:
             return False
-        return ref(ea, eb, dev) if (ea is not None and eb is not None) else True
+        return devmodel(ea, eb, dev) if (ea is not None and eb is not None) else True
     if ka in GENERIC or kb in GENERIC:
         if ka != kb:
             return False
-        xa, xb = ca["a"], cb["a"]
-        if len(xa) != len(xb) and "zip" not in dev:
+        if len(ca["a"]) != len(cb["a"]) and "zip" not in dev:
             return False
-        return all(ref(x, y, dev) for x, y in zip(xa, xb))
+        return all(devmodel(x, y, dev) for x, y in zip(ca["a"], cb["a"]))
     return issubclass(PY[ka], PY[kb])
 
 
-DEVS = [
-    (frozenset({"zip"}), "DEV-tuple-arity-zip-truncation"),
-    (frozenset({"swap"}), "DEV-required-only-Annotated-args-swapped"),
-    (frozenset({"zip", "swap"}), "DEV-zip-truncation+Annotated-swap"),
-]
+DEVS = [frozenset(c) for n in range(1, len(DEV_NAMES) + 1) for c in itertools.combinations(DEV_NAMES, n)]
+NODEV = frozenset()
 
 
-def diagnose(calls) -> str:
-    """calls: [(a, b, got)].  '' if every call agrees with ref; else the deviation model that explains all of them."""
+def explain(pred) -> list[str]:
+    """Names of a smallest set of modelled deviations for which ``pred(model)`` holds (model(a, b) -> bool); [] if none."""
+    for dev in DEVS:
+        if pred(lambda a, b, dev=dev: devmodel(a, b, dev)):
+            return ["DEV-" + DEV_NAMES[x] for x in DEV_NAMES if x in dev]
+    return []
+
+
+def diagnose(calls) -> list[str] | None:
+    """calls: [(a, b, got)].  None if every call agrees with ref; else the deviation buckets explaining all of them."""
+    for a, b, _ in calls:
+        assert devmodel(a, b, NODEV) == ref(a, b), (a, b)  # harness self-check
     if all(ref(a, b) == got for a, b, got in calls):
-        return ""
-    for dev, name in DEVS:
-        if all(ref(a, b, dev) == got for a, b, got in calls):
-            return name
-    return "unexplained"
+        return None
+    return explain(lambda model: all(model(a, b) == got for a, b, got in calls))
 
 
 def itc(out, a, b):
@@ -238,6 +305,7 @@ def body_pair(data) -> Outcome:
     out = Outcome()
     a, b = data["a"], data["b"]
     want = ref(a, b)
+    assert devmodel(a, b, NODEV) == want, (a, b)  # harness self-check: the bucket-naming model extends ref
     out.nontrivial = nontrivial_pair(a, b)
     out.labels += [f"ref={want}", f"src:{a['k']}", f"req:{b['k']}", f"depth:{depth(a)}x{depth(b)}"]
     if want and a != b:
@@ -246,11 +314,11 @@ def body_pair(data) -> Outcome:
     if got is None:
         return out
     if got != want:
-        d = diagnose([(a, b, got)])
-        if d.startswith("DEV-"):
+        ds = diagnose([(a, b, got)])
+        for d in ds:  # one failure per modelled deviation involved (a case may need two of them)
             out.labels.append(d)
             out.fail(d, f"{show(a)} -> {show(b)}: is_type_compatible={got}, reference={want}")
-        else:
+        if not ds:
             which = "accepts-incompatible" if got else "rejects-compatible"
             out.fail(f"compat-mismatch-{which}", f"{show(a)} -> {show(b)}: is_type_compatible={got}, reference={want}")
     return out
@@ -284,11 +352,15 @@ def body_laws(data) -> Outcome:
         if any(g is None for _, _, g in calls):
             return
         if not holds:
-            d = diagnose(calls) or "ref-agrees-with-each-call"
-            out.fail(
-                f"law-{name}:{d}",
-                "; ".join(f"{show(p)} -> {show(q)} = {g}" for p, q, g in calls),
-            )
+            txt = f"law {name}: " + "; ".join(f"{show(p)} -> {show(q)} = {g}" for p, q, g in calls)
+            ds = diagnose(calls)
+            if ds is None:  # every call agrees with ref and the law still fails: ref itself breaks the law
+                out.fail(f"law-{name}-violated-by-reference", txt)
+            elif not ds:
+                out.fail(f"law-{name}-violated", txt)
+            for d in ds or []:
+                out.labels.append(d)
+                out.fail(d, txt)
 
     # reflexivity (two separately built, equal objects)
     g = itc(out, a, a)
@@ -438,14 +510,12 @@ def body_pipeline(data) -> Outcome:
         out.fail("rejected-although-validation-disabled", desc + f" :: {exc_detail(err)}")
         return out
     # name the bucket: is the outcome what one of the modelled deviations predicts?
-    name = None
-    for dev, nm in DEVS:
-        if all(ref(s, r, dev) for s, r in eff) == got_ok:
-            name = nm
-            break
+    name = explain(lambda model: all(model(s, r) for s, r in eff) == got_ok)
+    for d in name:
+        out.labels.append(d)
+        out.fail(d, f"pipeline constructed={got_ok} :: {desc}")
     if name:
-        out.labels.append("pipeline:" + name)
-        out.fail("pipeline:" + name, f"constructed={got_ok} :: {desc}")
+        pass
     elif got_ok:
         out.fail("pipeline-accepts-incompatible-edge", desc)
     else:
@@ -675,7 +745,11 @@ MODES = {
 
 
 def _is_objarray_like(r) -> bool:
-    return strip(r)[0]["k"] == "objarray"
+    """The built annotation is (Annotated over) the plain object ndarray type, e.g. also Array[int] | Array[int]."""
+    t = build(r)
+    while typing.get_origin(t) is Annotated:
+        t = typing.get_args(t)[0]
+    return t == OBJARRAY_T
 
 
 @st.composite
